@@ -159,6 +159,8 @@ def overlapping_types(schema, scope):
 # ---- catalogue V -----------------------------------------------------------------------------------------------------------
 DEFAULT_KINDS = ("R1", "R2", "R3", "R4", "R5", "R6", "R8", "R9", "R10", "R11", "R13")
 ALL_KINDS = DEFAULT_KINDS + ("R14", "R15", "R16")
+# lighter variants used as *second* rewrite in the quick tiers: R2L (fresh alias, alias = name of a sibling selection),
+# R8L (@skip/@include with literals, one required and one defaulted variable)
 
 
 def neighbours(schema, document, kinds=None):
@@ -186,6 +188,25 @@ def neighbours(schema, document, kinds=None):
             def put(*new):
                 return set_container_sel(document, path, sel[:i] + tuple(new) + sel[i + 1:])
 
+            if isinstance(s, Field) and want("R2L") and not want("R2"):
+                yield "R2L", put(replace(s, alias=fresh(document, "z")))
+                for other in sel:
+                    if isinstance(other, Field) and other is not s and other.key != s.key:
+                        yield "R2L", put(replace(s, alias=other.key))
+                        yield "R2L", put(replace(s, alias=other.name))
+            if want("R8L") and not want("R8") and not any(d.name in ("skip", "include") for d in s.dirs):
+                for dn in ("skip", "include"):
+                    for lit in (True, False):
+                        yield "R8L", put(replace(s, dirs=s.dirs + (Directive(dn, (Arg("if", BoolV(lit)),)),)))
+                ops = reaching_ops(document, path[0])
+                if ops:
+                    vn = fresh(document, "b")
+                    for dn, vtype, default in (("skip", "Boolean!", None), ("include", "Boolean", BoolV(False))):
+                        d2 = put(replace(s, dirs=s.dirs + (Directive(dn, (Arg("if", Var(vn)),)),)))
+                        defs = list(d2.defs)
+                        for oi in ops:
+                            defs[oi] = replace(defs[oi], vars=defs[oi].vars + (VarDef(vn, vtype, default),), shorthand=False)
+                        yield "R8L", replace(d2, defs=tuple(defs))
             if isinstance(s, Field):
                 # R2 aliases
                 if want("R2"):
